@@ -321,7 +321,8 @@ def run(model, rep, tier):
     # ---------------------------------------------------------------- R-19.8
     bd = model.func("dns.btree.BTree._delete")
     cd8 = CFG(bd.node, implicit_exc=False)
-    tests8 = [n for n in cd8.nodes if n.kind == "test" and isinstance(n.ast, ast.If) and any(a[0] == "len(self.root.elts)" and a[1] == "==" and a[2] == "0" for a in atoms(normalise_compare(n.ast.test)))]
+    tests8 = [n for n in cd8.nodes if n.kind == "test" and isinstance(n.ast, ast.If) and any(a[0] == "len(self.root.elts)" and a[1] == "==" and a[2] == "0" for a in atoms(normalise_compare(n.ast.test)))
+              and all("self.root" in a[0] for a in atoms(normalise_compare(n.ast.test)))]
     descents = [n.id for (n, c) in calls_with_nodes(cd8) if src(c.func) == "self.root.delete"]
     okk = bool(tests8) and bool(descents) and cd8.dominated_by_set(cd8.exit.id, [t_.id for t_ in tests8]) and all(cd8.dominated_by_set(t_.id, descents) for t_ in tests8)
     rep.check(okk, "R-19.8", bd.qualname, where(bd, tests8[0].ast if tests8 else bd.node), "the empty-root test follows the descent on every path",
